@@ -277,6 +277,68 @@ fn c10_recv_n_vectored_continue() {
     std::mem::forget(fd);
 }
 
+//@ prop: C10
+//@ tier: quick
+//@ what: builder settings of the socket composites reach BOTH the first request's arguments and the record the continuation is built from: recv_n(..).flags(f), recv_n_vectored(..).flags(f), send_all(..).flags(f)[.zc()], send_all_vectored(..).flags(f)[.zc()] -- created through the public API, flags any u32, zero-copy symbolic
+//@ bound: one buffer of capacity 6 / two of 3; flags any u32; zc symbolic
+//@ encodes: AsyncFd::{recv_n,recv_n_vectored,send_all,send_all_vectored}; net::{RecvN,RecvNVectored,SendAll,SendAllVectored}::{flags,zc}; io_uring::op::State::args_mut
+//@ stubs: crate::lock -> try_lock model; <core::io::CustomOwner as Drop>::drop -> no-op
+#[kani::proof]
+#[kani::unwind(4)]
+#[kani::stub(crate::lock, crate::verif_stubs::lock_model)]
+#[kani::stub(<core::io::CustomOwner as core::ops::Drop>::drop, crate::verif_stubs::custom_owner_drop_noop)]
+fn c10_net_builders() {
+    let fd = rig();
+    let f: u32 = kani::any();
+    let zc: bool = kani::any();
+    let which: u8 = kani::any();
+    kani::assume(which < 4);
+    match which {
+        0 => {
+            let mut fut = fd.recv_n(Vec::<u8>::with_capacity(6), 3).flags(RecvFlag(f));
+            assert!(fut.flags.0 == f, "continuation record has the flags");
+            let (_, a) = ops::resources_args(&mut fut.recv.state);
+            assert!(a.0 == f, "first request has the flags");
+            assert!(fut.left == 3);
+            std::mem::forget(fut);
+        }
+        1 => {
+            let mut fut = fd.recv_n_vectored([Vec::<u8>::with_capacity(3), Vec::<u8>::with_capacity(3)], 4).flags(RecvFlag(f));
+            assert!(fut.flags.0 == f, "continuation record has the flags");
+            let (_, a) = ops::resources_args(&mut fut.recv.state);
+            assert!(a.0 == f, "first request has the flags");
+            assert!(fut.left == 4);
+            std::mem::forget(fut);
+        }
+        2 => {
+            let mut fut = fd.send_all(vec6(6, &[1, 2, 3, 4, 5, 6])).flags(SendFlag(f));
+            if zc {
+                fut = fut.zc();
+            }
+            assert!(fut.flags.0 == f, "continuation record has the flags");
+            assert!(matches!(fut.send_op, SendCall::ZeroCopy) == zc, "continuation record has the zero-copy mode");
+            let (_, a) = ops::resources_args(&mut fut.send.fut.state);
+            assert!(a.1.0 == f && matches!(a.0, SendCall::ZeroCopy) == zc, "first request has flags and mode");
+            std::mem::forget(fut);
+        }
+        _ => {
+            let mut fut = fd.send_all_vectored([vec6(3, &[1, 2, 3, 4, 5, 6]), vec6(2, &[1, 2, 3, 4, 5, 6])]).flags(SendFlag(f));
+            if zc {
+                fut = fut.zc();
+            }
+            assert!(fut.flags.0 == f, "continuation record has the flags");
+            assert!(matches!(fut.send_op, SendCall::ZeroCopy) == zc, "continuation record has the zero-copy mode");
+            assert!(fut.skip == 0);
+            let (_, a) = ops::resources_args(&mut fut.send.fut.state);
+            assert!(a.1.0 == f && matches!(a.0, SendCall::ZeroCopy) == zc, "first request has flags and mode");
+            std::mem::forget(fut);
+        }
+    }
+    kani::cover!(which == 0 && f != 0);
+    kani::cover!(which == 3 && zc);
+    std::mem::forget(fd);
+}
+
 // Accessors for C13 (the `state` field of these futures is private to `net`).
 pub(crate) fn connect_res_addr<A: SocketAddress>(f: &super::Connect<'_, A>) -> usize { ops::resources_addr(&f.state) }
 pub(crate) fn bind_res_addr<A: SocketAddress>(f: &super::Bind<'_, A>) -> usize { ops::resources_addr(&f.state) }
